@@ -164,6 +164,10 @@ class CpuLimit(BaseException):
     pass
 
 
+class _SubprocessDone(Exception):
+    pass
+
+
 def _on_vtalrm(signum, frame):
     raise CpuLimit()
 
@@ -492,7 +496,7 @@ def handle(job: dict) -> dict:
     signal.setitimer(signal.ITIMER_VIRTUAL, cpu_limit)
     FS["on"] = True
     try:
-        if job.get("via") == "cli":
+        if job.get("via") in ("cli", "subprocess"):
             from typer.testing import CliRunner
             args = ["generate", "--meta", meta.value]
             args += ["--url", source] if isinstance(source, str) else ["--path", str(source)]
@@ -511,6 +515,19 @@ def handle(job: dict) -> dict:
             cfgp.write_text(json.dumps(cfgd))
             FS["on"] = True
             args += ["--config", str(cfgp)]
+            if job.get("via") == "subprocess":
+                # the real process boundary: exit status, stderr, cwd, hash seed of a fresh interpreter
+                env = {k: v for k, v in os.environ.items() if k != "PYTHONHASHSEED"}
+                env["PYTHONPATH"] = REPO
+                if job.get("hashseed") is not None:
+                    env["PYTHONHASHSEED"] = str(job["hashseed"])
+                FS["on"] = False
+                p_ = subprocess.run([PY, "-m", "openapi_python_client"] + args, capture_output=True, text=True, env=env, cwd=job.get("cwd") or str(work), timeout=float(job.get("subprocess_timeout", 120)))
+                res["cli_exit"] = p_.returncode
+                res["cli_stderr"] = p_.stderr if len(p_.stderr) < 4000 else p_.stderr[:1500] + "\n...\n" + p_.stderr[-2000:]
+                res["cli_stdout"] = p_.stdout[:500] + p_.stdout[-500:]
+                res["traceback"] = "Traceback (most recent call last)" in p_.stderr
+                raise _SubprocessDone()
             r = CliRunner().invoke(opc_cli.app, args, catch_exceptions=True)
             res["cli_exit"] = r.exit_code
             try:
@@ -528,6 +545,10 @@ def handle(job: dict) -> dict:
             cfg = Config.from_sources(ConfigFile(**cfgd), meta, source, job.get("file_encoding", "utf-8"), bool(job.get("overwrite")), outdir if use_output_path else None)
             with contextlib.redirect_stdout(io.StringIO()):
                 errors = opc.generate(config=cfg, custom_template_path=Path(job["custom_template_path"]) if job.get("custom_template_path") else None)
+    except _SubprocessDone:
+        pass
+    except subprocess.TimeoutExpired:
+        res["nonterminating"] = {"cpu_limit": None, "stack": "real subprocess exceeded its wall-clock limit"}
     except CpuLimit:
         res["nonterminating"] = {"cpu_limit": cpu_limit, "stack": traceback.format_exc()[-1500:]}
     except BaseException as ex:
